@@ -42,10 +42,10 @@ def nlBGate (g : NlGate) : BGate := ⟨g.name, g.kind, g.drv⟩
 def benchOf (nl : Nl) : List BStmt :=
   nl.ports.map (fun p => BStmt.intf [p.2]) ++ nl.gates.map fun g => BStmt.gate g.name g.kind g.drv
 
-/-- the Verilog rendering (module body; port list `nl.portNames`): single-bit `input` / `output` declarations, then
+/-- the Verilog rendering (module body; port list `nl.portNames`): one single-bit `input n;` / `output n;` declaration per port, then
 `kind inst(.o(name), .i0(d0), …)` per gate -/
 def verilogOf (nl : Nl) : List Stmt :=
-  Stmt.decls (nl.ports.map nlDecl) :: nl.gates.map fun g => Stmt.inst g.kind g.inst (nlInst g).pins
+  (nl.ports.map fun p => Stmt.decls [nlDecl p]) ++ nl.gates.map fun g => Stmt.inst g.kind g.inst (nlInst g).pins
 
 /-- **the common fragment** (decidable): port names pairwise different; gate names pairwise different; instance names pairwise
 different and no port name; no input port is a gate name; every output port is a gate name; every gate has at most four operands
@@ -151,14 +151,23 @@ theorem fe_foldl_declPut_nodup (ds acc : List Decl) (hn : (ds.map (·.base)).Nod
       intro e2
       exact hn.1 (e2 ▸ List.mem_map_of_mem hx)
 
+theorem declsOf_ports (l : List (Bool × String)) : (l.map fun p => Stmt.decls [nlDecl p]).flatMap declsOf = l.map nlDecl := by
+  induction l with
+  | nil => rfl
+  | cons p r ih => simp only [List.map_cons, List.flatMap_cons, declsOf, ih, List.singleton_append]
+
 theorem sigDecls_verilogOf (nl : Nl) (hn : nl.portNames.Nodup) : sigDecls (verilogOf nl) = nl.ports.map nlDecl := by
-  rw [sigDecls, verilogOf, List.flatMap_cons, declsOf_insts, List.append_nil]
-  show (nl.ports.map nlDecl).foldl declPut [] = _
+  rw [sigDecls, verilogOf, List.flatMap_append, declsOf_insts, List.append_nil, declsOf_ports]
   rw [fe_foldl_declPut_nodup _ [] (by rw [List.map_map]; exact hn) (by intro _ _ e he; cases he), List.nil_append]
 
 theorem vInsts_verilogOf (nl : Nl) : vInsts (verilogOf nl) = nl.gates.map nlInst := by
-  rw [vInsts, verilogOf, List.filterMap_cons]
-  show List.filterMap instOf _ = _
+  rw [vInsts, verilogOf, List.filterMap_append]
+  have h1 : ∀ l : List (Bool × String), (l.map fun p => Stmt.decls [nlDecl p]).filterMap instOf = [] := by
+    intro l
+    induction l with
+    | nil => rfl
+    | cons p r ih => simp only [List.map_cons, List.filterMap_cons, instOf, ih]
+  rw [h1, List.nil_append]
   induction nl.gates with
   | nil => rfl
   | cons g r ih => simp only [List.map_cons, List.filterMap_cons, instOf, ih]; rfl
@@ -169,10 +178,16 @@ theorem pairsOf_insts (ds : List Decl) (l : List NlGate) :
   | nil => rfl
   | cons g r ih => simp only [List.map_cons, List.flatMap_cons, pairsOf, ih, List.append_nil]
 
+theorem pairsOf_ports (ds : List Decl) (l : List (Bool × String)) :
+    (l.map fun p => Stmt.decls [nlDecl p]).flatMap (pairsOf ds) = [] := by
+  induction l with
+  | nil => rfl
+  | cons p r ih => simp only [List.map_cons, List.flatMap_cons, pairsOf, ih, List.append_nil]
+
 theorem vPairs_verilogOf (nl : Nl) : vPairs (verilogOf nl) = [] := by
   rw [vPairs, assignPairs]
   generalize sigDecls (verilogOf nl) = ds
-  rw [verilogOf, List.flatMap_cons, pairsOf_insts]
+  rw [verilogOf, List.flatMap_append, pairsOf_insts, pairsOf_ports]
   rfl
 
 theorem lookup_nlDecl (ports : List (Bool × String)) (n : String) (d : Decl) (h : lookup (ports.map nlDecl) n = some d) :
